@@ -87,10 +87,42 @@ def good_details():
 ST_200 = ['200']
 ST_NOT200 = ['404', '503', '400', '401', '403', '429', '502', '504', '500', '302', '204', '201', '599', '299',
              '', 'abc', '2000', ' 200', '200 ', '0200', None, None]
-CT_OK = ['application/grpc', 'application/grpc+proto', 'application/grpc', 'application/grpc+']
-CT_BAD = ['text/html', 'application/grpc+json', 'application/grpcx', 'application/grp', '', 'Application/grpc',
-          'application/grpc;charset=utf-8', 'application/grpc-web', 'application/json', '+proto',
-          'application/grpc+proto+x', ' application/grpc', 'application/grpc+Proto']
+def _ct_candidates():
+    out = ['text/html', '', 'Application/grpc', 'application/grpc;charset=utf-8', 'application/grpc-web',
+           'application/json', ' application/grpc', 'application/grpc+Proto', 'application/grpc+', '+', '++']
+    for t in ('application/grpc+json', 'application/grpc', 'application/grpc+proto'):
+        n = len(t)
+        out += [t[:i] for i in range(n + 1)] + [t[i:] for i in range(n + 1)]      # prefixes, suffixes
+        out += [t[i:j] for i in (1, 3, 9, 12) for j in (n - 1, n - 2, 16, 17) if i < j]   # inner substrings
+        out += [t + x for x in ('x', '+', '+x', ' ', 'n', '+json', '+proto')] + ['x' + t, '+' + t, t + t]
+    seen, res = set(), []
+    for c in out:
+        if c not in seen:
+            seen.add(c)
+            res.append(c)
+    return res
+
+
+CT_ALL = _ct_candidates()
+SUBTYPES = ['proto', 'json']
+
+
+def ct_verdict(v, csub):
+    """True | False | None (= 'application/grpc+' with an empty subtype: either verdict is accepted)"""
+    if v is None:
+        return False
+    if v == 'application/grpc+':
+        return None
+    if v == 'application/grpc':
+        return csub == 'proto'          # no subtype means proto
+    return v == 'application/grpc+' + csub
+
+
+CT_OK = {c: [v for v in CT_ALL if ct_verdict(v, c) is True] * 3 + [v for v in CT_ALL if ct_verdict(v, c) is None]
+         for c in SUBTYPES}
+CT_OK['json'] = [v for v in CT_OK['json'] if v != 'application/grpc+']     # proto is the default subtype
+CT_BAD = {c: [v for v in CT_ALL if ct_verdict(v, c) is False] + (['application/grpc+'] if c != 'proto' else [])
+          for c in SUBTYPES}
 GS_OK = ['0', '0', '0', ' 0 ', '-0', '+0', '00', '0_0', '\t0\n']
 GS_INVALID = ['17', '-1', 'x', '', '1.0', '0x1', '1__0', '_1', '1_', 'OK', '99999999999999999999', '+', '- 1',
               '1 2', '\x1c1', '20', '-2', '18', '1e0', 'None', '0' * 4301]
@@ -129,16 +161,16 @@ def shuffle_with_decoys(rng, pairs):
     return out
 
 
-def concretize_h(rng, st, ct, gs, md):
+def concretize_h(rng, st, ct, gs, md, csub='proto'):
     """headers block for the abstract class (st, ct, gs, md)"""
     hs = []
     v = rng.choice(ST_200) if st == 'S200' else rng.choice(ST_NOT200)
     if v is not None:
         hs.append((':status', v))
     if ct == 'CtOk':
-        hs.append(('content-type', rng.choice(CT_OK)))
+        hs.append(('content-type', rng.choice(CT_OK[csub])))
     elif ct == 'CtBad':
-        hs.append(('content-type', rng.choice(CT_BAD)))
+        hs.append(('content-type', rng.choice(CT_BAD[csub])))
     hs += concretize_gs(rng, gs)
     hs = shuffle_with_decoys(rng, hs)
     hs += rng.choice(MD_OK) if md == 'MdOk' else rng.choice(MD_BAD)
@@ -211,7 +243,7 @@ def timings(trs, es, c):
         pre, last = es[:len(es) - j], es[len(es) - j:] + c
         for tr in trs:
             # inline triggers: the prefix in one batch only (keeps the thorough tier inside its budget)
-            for sep in ((False, True) if tr == 'B' else (False,)):
+            for sep in ((False, True) if tr in ('B', 'L') else (False,)):
                 bs = []
                 if sep:
                     bs += [('B', [e]) for e in pre]
@@ -230,14 +262,14 @@ def abstract_scripts(maxd, trs, hinfos, tinfos):
                 yield bs
 
 
-def concretize_script(rng, abs_bs):
+def concretize_script(rng, abs_bs, csub='proto'):
     """abstract batches -> the `batches` list of a case"""
     out = []
     for tr, evs in abs_bs:
         ces = []
         for e in evs:
             if e[0] == 'H':
-                ces.append(['H', concretize_h(rng, *e[1]), bool(e[2])])
+                ces.append(['H', concretize_h(rng, *e[1], csub=csub), bool(e[2])])
             elif e[0] == 'D':
                 ces.append(['D', rng.choice([0, 1, 3, 3, 20]), bool(e[1])])
             elif e[0] == 'T':
@@ -252,10 +284,11 @@ def concretize_script(rng, abs_bs):
     return out
 
 
-def mk_case(rng, card, variant, prog, abs_bs):
+def mk_case(rng, card, variant, prog, abs_bs, lis=''):
     nreq = 1 if card in ('UU', 'US') else rng.choice([0, 1, 1, 2])
-    return {'card': card, 'variant': variant, 'prog': list(prog), 'nreq': nreq,
-            'codec': rng.random() < 0.85, 'batches': concretize_script(rng, abs_bs)}
+    csub = 'json' if rng.random() < 0.3 else 'proto'
+    return {'card': card, 'variant': variant, 'prog': list(prog), 'nreq': nreq, 'csub': csub, 'lis': lis,
+            'codec': rng.random() < 0.85, 'batches': concretize_script(rng, abs_bs, csub)}
 
 
 # ---- PRNG scripts with free header strings and free timings --------------------------------------------
@@ -281,7 +314,7 @@ def rand_gs(rng):
                        '+', '1__1', '\t7\r\n', '7\x0b', '7\x1c', '2 ', '1 6'])
 
 
-def rand_block(rng, headers):
+def rand_block(rng, headers, csub='proto'):
     hs = []
     if headers:
         s = rand_status(rng)
@@ -289,9 +322,9 @@ def rand_block(rng, headers):
             hs.append((':status', s))
         r = rng.random()
         if r < 0.6:
-            hs.append(('content-type', rng.choice(CT_OK)))
+            hs.append(('content-type', rng.choice(CT_OK[csub])))
         elif r < 0.85:
-            hs.append(('content-type', rng.choice(CT_BAD)))
+            hs.append(('content-type', rng.choice(CT_BAD[csub])))
     if rng.random() < (0.25 if headers else 0.85):
         hs.append(('grpc-status', rand_gs(rng)))
         m = rng.choice(GM)
@@ -310,18 +343,20 @@ def rand_case(rng):
     card = rng.choice(CARDS)
     variant = rng.choice(['call', 'open'])
     prog = rng.choice(OPEN_PROGS) if variant == 'open' else []
+    csub = 'json' if rng.random() < 0.3 else 'proto'
+    lis = rng.choice(['', '', 'imt', 'imt', 'i', 'm', 't', 'it', 'mt'])
     evs = []
     r = rng.random()
     if r > 0.05:
         hend = rng.random() < 0.15
-        evs.append(['H', rand_block(rng, True), hend])
+        evs.append(['H', rand_block(rng, True, csub), hend])
         if not hend:
             nd = rng.choice([0, 0, 1, 1, 2, 3])
             dend = nd > 0 and rng.random() < 0.12
             for i in range(nd):
                 evs.append(['D', rng.choice([0, 1, 3, 20]), dend and i == nd - 1])
             if not dend and rng.random() < 0.8:
-                evs.append(['T', rand_block(rng, False)])
+                evs.append(['T', rand_block(rng, False, csub)])
     # cut: truncate the script at a random point and append the cut
     if rng.random() < 0.5:
         evs = evs[:rng.randint(0, len(evs))]
@@ -334,9 +369,11 @@ def rand_case(rng):
             batches[-1]['events'].append(e)
         else:
             tr = 'B' if (variant == 'call' or rng.random() < 0.5) else rng.randint(0, len(prog))
+            if lis and rng.random() < 0.4:
+                tr = 'L'
             batches.append({'trig': tr, 'events': [e]})
     nreq = 1 if card in ('UU', 'US') else rng.choice([0, 1, 2])
-    return {'card': card, 'variant': variant, 'prog': list(prog), 'nreq': nreq,
+    return {'card': card, 'variant': variant, 'prog': list(prog), 'nreq': nreq, 'csub': csub, 'lis': lis,
             'codec': rng.random() < 0.85, 'batches': batches}
 
 
@@ -350,7 +387,8 @@ def run_line(case):
     card = case['card']
     w = ['run', 'c' if case['variant'] == 'call' else 'o', '1' if card[0] == 'S' else '0',
          '1' if card[1] == 'S' else '0', ','.join(case['prog']) or '-', '1' if case.get('codec', True) else '0',
-         cps(CSUB), str(len(case['batches']))]
+         cps(case.get('csub', CSUB)), ''.join('1' if c in case.get('lis', '') else '0' for c in 'imt'),
+         str(len(case['batches']))]
     for b in case['batches']:
         w += [str(b['trig']), str(len(b['events']))]
         for e in b['events']:
@@ -424,15 +462,10 @@ def py_gs(block):
     return k if 0 <= k <= 16 else 'invalid'
 
 
-def py_ct_ok(block):
+def py_ct_ok(block, csub=CSUB):
     """True | False | None (= 'application/grpc+' with an empty subtype: either verdict is accepted)"""
     d = dict((k, v) for k, v in block)
-    v = d.get('content-type')
-    if v is None:
-        return False
-    if v == 'application/grpc+':
-        return None
-    return v == 'application/grpc' or v == 'application/grpc+' + CSUB
+    return ct_verdict(d.get('content-type'), csub)
 
 
 def script_facts(case):
@@ -476,7 +509,7 @@ def oracle(case, obs):
     H, T, ended, cut = f['H'], f['T'], f['ended'], f['cut']
     dH = dict((k, v) for k, v in H) if H is not None else None
     http_ok = dH is not None and dH.get(':status') == '200'
-    ct = py_ct_ok(H) if H is not None else False
+    ct = py_ct_ok(H, case.get('csub', CSUB)) if H is not None else False
     accs = [True, False] if (http_ok and ct is None) else [bool(http_ok and ct)]
     gsH = py_gs(H) if H is not None else 'absent'
     gsT = py_gs(T) if T is not None else 'absent'
@@ -553,10 +586,11 @@ def check_runs(ctx, res, cases, tag):
         ci0 = canon_impl(obs)
         f = script_facts(case)
         res.count('%s:%s:%s' % (tag, case['variant'], case['card']))
+        res.count('config:csub=%s:listeners=%s' % (case.get('csub', CSUB), case.get('lis', '') or '-'))
         res.count('impl:' + (ci0[0] if ci0[0] != 'grpc' else 'grpc:%d' % ci0[1]))
         res.count('cut:' + ('yes' if f['cut'] else 'no') + ':ended:' + ('yes' if f['ended'] else 'no'))
-        res.signatures.add((case['variant'], case['card'], tuple(case['prog']),
-                            tuple((b['trig'] == 'B', tuple(e[0] + str(e[2] if e[0] == 'H' else '')
+        res.signatures.add((case['variant'], case['card'], tuple(case['prog']), case.get('lis', ''),
+                            tuple((b['trig'] if b['trig'] in ('B', 'L') else 'S', tuple(e[0] + str(e[2] if e[0] == 'H' else '')
                                                            for e in b['events'])) for b in case['batches']),
                             ci0[:2]))
         if extra['errors'] or extra['unhandled']:
@@ -658,26 +692,30 @@ def impl_block(stream, hs, codec_on):
 
 
 def check_blocks(ctx, res, blocks):
-    """blocks: [(headers, codec_on)]"""
+    """blocks: [(headers, codec_on, csub)]"""
+    from harness.c02_util import JsonSubtypeCodec
+    blocks = [(b + ('proto',))[:3] for b in (tuple(b) for b in blocks)]
     from harness import vloop, wire
     from grpclib.const import Cardinality
     from grpclib.encoding.proto import ProtoStatusDetailsCodec
     lines = []
-    for hs, codec_on in blocks:
-        lines.append(' '.join(['hdr', '1' if codec_on else '0', '1' if details_bytes_ok(hs) else '0', cps(CSUB)]
+    for hs, codec_on, csub in blocks:
+        lines.append(' '.join(['hdr', '1' if codec_on else '0', '1' if details_bytes_ok(hs) else '0', cps(csub)]
                               + pairs_words(hs)))
     model = ctx.model(lines) if ctx.model_ok else None
     with vloop.session() as loop:
         streams = {}
         for on in (True, False):
-            ce = wire.ClientEnd(loop, status_details_codec=ProtoStatusDetailsCodec() if on else None)
-            streams[on] = ce.channel.request('/v.S/M', Cardinality.UNARY_UNARY, bytes, bytes)
-        for i, (hs, codec_on) in enumerate(blocks):
+            for sub in SUBTYPES:
+                ce = wire.ClientEnd(loop, status_details_codec=ProtoStatusDetailsCodec() if on else None,
+                                    codec=JsonSubtypeCodec() if sub == 'json' else None)
+                streams[on, sub] = ce.channel.request('/v.S/M', Cardinality.UNARY_UNARY, bytes, bytes)
+        for i, (hs, codec_on, csub) in enumerate(blocks):
             res.evaluations += 1
             try:
-                st, ct, gs, msg, det, md = impl_block(streams[codec_on], [tuple(p) for p in hs], codec_on)
+                st, ct, gs, msg, det, md = impl_block(streams[codec_on, csub], [tuple(p) for p in hs], codec_on)
             except Exception as e:      # a helper raised something that is not a GRPCError
-                res.oracle_failures.append({'case': {'op': 'hdr', 'hs': hs, 'codec': codec_on},
+                res.oracle_failures.append({'case': {'op': 'hdr', 'hs': hs, 'codec': codec_on, 'csub': csub},
                                             'what': 'a response-checking helper raised %s' % type(e).__name__,
                                             'signature': {'kind': 'helper-raised', 'exc': type(e).__name__}})
                 continue
@@ -690,8 +728,16 @@ def check_blocks(ctx, res, blocks):
                 SPEC_HTTP_MAP.get(d.get(':status'), 'UNKNOWN')))
             g = py_gs(hs)
             want_gs = g if isinstance(g, str) else 'valid:%d' % g
+            want_ct = ct_verdict(d.get('content-type'), csub)
+            res.count('hdr:csub=%s:ct=%s' % (csub, ct.split('!')[0]))
+            if want_ct is not None and (ct == 'ok') != want_ct:
+                res.oracle_failures.append({'case': {'op': 'hdr', 'hs': hs, 'codec': codec_on, 'csub': csub},
+                                            'what': 'content-type %r %s by a %s codec' % (
+                                                d.get('content-type'), 'accepted' if ct == 'ok' else 'refused', csub),
+                                            'signature': {'kind': 'helper-content-type', 'csub': csub,
+                                                          'accepted': ct == 'ok'}})
             if st != want_st or gs != want_gs:
-                res.oracle_failures.append({'case': {'op': 'hdr', 'hs': hs, 'codec': codec_on},
+                res.oracle_failures.append({'case': {'op': 'hdr', 'hs': hs, 'codec': codec_on, 'csub': csub},
                                             'what': 'block classified %s/%s, statement says %s/%s' % (
                                                 st, gs, want_st, want_gs),
                                             'signature': {'kind': 'helper-classification'}})
@@ -706,7 +752,7 @@ def check_blocks(ctx, res, blocks):
                         uncps(m_msg[2:] or '-'), encoding='utf-8', errors='replace')
                     ok = (msg == want_msg) and ((det is not None) == (m_det == 'ok'))
                 if not ok:
-                    res.disagreements.append({'case': {'op': 'hdr', 'hs': hs, 'codec': codec_on},
+                    res.disagreements.append({'case': {'op': 'hdr', 'hs': hs, 'codec': codec_on, 'csub': csub},
                                               'model': w, 'impl': [st, ct, gs, msg, repr(det), md]})
 
 
@@ -715,7 +761,7 @@ def rand_free_block(rng):
     if rng.random() < 0.9:
         hs.append((':status', rng.choice(['200', '200', str(rng.randint(100, 599)), '', '٢٠٠', 'OK', '200 '])))
     if rng.random() < 0.9:
-        hs.append(('content-type', rng.choice(CT_OK + CT_BAD + ['application/grpc+prötö'])))
+        hs.append(('content-type', rng.choice(CT_ALL + ['application/grpc+prötö', 'application/grpc+jsön'])))
     if rng.random() < 0.85:
         r = rng.random()
         gs = rand_gs(rng) if r < 0.4 else (rng.choice(NONASCII_GS) if r < 0.7 else rand_unicode_int_string(rng))
@@ -749,9 +795,21 @@ def matrix_cases(rng, thorough):
         groups.append((card, 'call', [], 1, ['B'], [h for h in hin_ok if h[0] == 'S200' and h[1] == 'CtOk'],
                        all_tinfo(['MdBad'])))
     groups.append(('UU', 'open', ['RI', 'RM', 'RT'], 1, ['B', 0, 1, 2, 3], hin_bad, all_tinfo()))
-    for card, variant, prog, maxd, trs, hins, tins in groups:
+    groups = [g + ('',) for g in groups]
+    # suspending listeners on RecvInitialMetadata / RecvMessage / RecvTrailingMetadata, the batch of the cut
+    # delivered during a suspension ('L') or while blocked; acceptable and unacceptable responses
+    hin_l = [h for h in hin_ok if h[0] == 'S200' and h[1] == 'CtOk'] + \
+            [('SNot200', 'CtOk', 'GsAbsent', 'MdOk'), ('S200', 'CtBad', 'GsErr', 'MdOk')]
+    for card in CARDS:
+        groups.append((card, 'call', [], 1, ['B', 'L'], hin_l, tin_ok, 'imt'))
+    for i, prog in enumerate(OPEN_PROGS):
+        groups.append((CARDS[(i + 1) % 4], 'open', prog, 1, ['L', len(prog)], hin_l, tin_ok, 'imt'))
+    for lis in ('i', 'm', 't'):
+        groups.append(('US', 'call', [], 1, ['L'], hin_l, tin_ok, lis))
+        groups.append(('UU', 'open', ['RI', 'RM', 'RT'], 1, ['L'], hin_l, tin_ok, lis))
+    for card, variant, prog, maxd, trs, hins, tins, lis in groups:
         for abs_bs in abstract_scripts(maxd, trs, hins, tins):
-            yield card, variant, prog, abs_bs
+            yield card, variant, prog, abs_bs, lis
 
 
 def run(ctx):
@@ -773,7 +831,8 @@ def run(ctx):
     if ccases:
         check_runs(ctx, res, ccases, 'corpus')
     if any(c.get('op') == 'hdr' for c in corpus):
-        check_blocks(ctx, res, [(c['hs'], c.get('codec', True)) for c in corpus if c.get('op') == 'hdr'])
+        check_blocks(ctx, res, [(c['hs'], c.get('codec', True), c.get('csub', 'proto')) for c in corpus
+                                if c.get('op') == 'hdr'])
     if any(c.get('op') == 'int' for c in corpus):
         check_ints(ctx, res, [c['s'] for c in corpus if c.get('op') == 'int'])
     # (a) matrix
@@ -787,8 +846,8 @@ def run(ctx):
         chosen = [cells[i] for i in sorted(rng.sample(range(len(cells)), min(k, len(cells))))]
     res.extra['matrix_cells_run'] = len(chosen)
     batch = []
-    for card, variant, prog, abs_bs in chosen:
-        batch.append(mk_case(rng, card, variant, prog, abs_bs))
+    for card, variant, prog, abs_bs, lis in chosen:
+        batch.append(mk_case(rng, card, variant, prog, abs_bs, lis))
         if len(batch) >= 20000:
             check_runs(ctx, res, batch, 'matrix')
             batch = []
@@ -797,9 +856,13 @@ def run(ctx):
     # (b) free scripts
     check_runs(ctx, res, [rand_case(rng) for _ in range(ctx.n(2500, 25000))], 'prng')
     # (c) helpers and int()
-    blocks = [(rand_free_block(rng), rng.random() < 0.8) for _ in range(ctx.n(3000, 40000))]
-    blocks += [([[':status', '200'], ['content-type', 'application/grpc'], ['grpc-status', s]], True)
+    blocks = [(rand_free_block(rng), rng.random() < 0.8, rng.choice(SUBTYPES)) for _ in range(ctx.n(3000, 40000))]
+    blocks += [([[':status', '200'], ['content-type', 'application/grpc'], ['grpc-status', s]], True, 'proto')
                for s in NONASCII_GS + GS_OK + GS_INVALID]
+    # every content-type candidate (prefixes / suffixes / substrings / superstrings of the accepted values)
+    # against both codec subtypes
+    blocks += [([[':status', '200'], ['content-type', v], ['grpc-status', '0']], True, sub)
+               for v in CT_ALL for sub in SUBTYPES]
     check_blocks(ctx, res, blocks)
     ints = NONASCII_GS + GS_OK + GS_INVALID + [str(k) for k in range(-3, 21)]
     ints += ['0' * 4299 + '5', '0' * 4300 + '5', '1' * 4300, '1' * 4301, '1_' * 2149 + '1', ' ' * 50 + '7' + ' ' * 50]
@@ -829,7 +892,7 @@ def replay(ctx, case):
     if op == 'int':
         check_ints(ctx, res, [case['s']])
     elif op == 'hdr':
-        check_blocks(ctx, res, [(case['hs'], case.get('codec', True))])
+        check_blocks(ctx, res, [(case['hs'], case.get('codec', True), case.get('csub', 'proto'))])
     else:
         check_runs(ctx, res, [case], 'replay')
     return res
